@@ -31,9 +31,17 @@ def oklab_of_linsrgb(r, g, b):
 STD_EDGES = [("xyz50", "lab50"), ("lab50", "xyz50"), ("xyz50", "luv50"), ("luv50", "xyz50"), ("lab50", "lch50"), ("lch50", "lab50"),
              ("xyzdci", "labdci"), ("labdci", "xyzdci"),
              ("hsv", "hsv_linsrgb"), ("hsv_linsrgb", "hsv"), ("hsl", "hsl_linsrgb"), ("hsl_linsrgb", "hsl")]
+# the transfer curves of the RGB standards (encoded <-> linear of the same primaries)
+TF_PAIRS = [("srgb", "linsrgb", 0.04045, 0.0031308), ("rec709", "linsrgb", 0.0812428583, 0.0180539685), ("p3", "linp3", 0.04045, 0.0031308),
+            ("adobe", "linadobe", 0.0, 0.0), ("rec2020", "linrec2020", 0.0812428583, 0.0180539685), ("prophoto", "linprophoto", 0.03125, 0.001953125),
+            ("dcip3", "lindcip3", 0.0, 0.0)]
+for (_e, _l, _, _) in TF_PAIRS:
+    STD_EDGES += [(_e, _l), (_l, _e)]
 STD_RANGES = {"xyz50": [(0, 0.96422), (0, 1), (0, 0.82521)], "lab50": NODES["lab"], "lch50": NODES["lch"], "luv50": NODES["luv"],
               "xyzdci": [(0, 0.89459), (0, 1), (0, 0.95442)], "labdci": NODES["lab"],
               "hsv": NODES["hsv"], "hsv_linsrgb": NODES["hsv"], "hsl": NODES["hsl"], "hsl_linsrgb": NODES["hsl"]}
+for (_e, _l, _, _) in TF_PAIRS:
+    STD_RANGES[_e] = STD_RANGES[_l] = NODES["srgb"]
 WHITE = (0.95047, 1.0, 1.08883)
 LAB_EPS = 216.0 / 24389.0
 
@@ -122,6 +130,16 @@ def gen_std(ctx, path):
     for (a, b) in STD_EDGES:
         if a[:3] in ("hsv", "hsl") and ctx.quick:
             nr, nl = 12, 8
+        tf = [t for t in TF_PAIRS if a in t[:2] and b in t[:2]]
+        if tf:      # both sides of the join of the two pieces (in the encoded and in the linear domain), and a dense run across it
+            j = tf[0][2] if a == tf[0][0] else tf[0][3]
+            nr, nl = (10, 6) if ctx.quick else (200, 60)
+            pts = [(j * f, 0.5, j * g) for f in (0.9, 0.99, 0.999, 1.0, 1.001, 1.01, 1.1, 1.25) for g in (0.97, 1.03)] if j else []
+            pts += [(x, x, x) for x in (0.0, 1e-9, 1e-4, 0.5, 1 - 1e-9, 1.0)]
+            pts += [tuple(rnd.random() for _ in range(3)) for _ in range(nr)]
+            for q in pts:
+                c.add(**{"from": a, "in": q, "path": [b], "mode": "u"})
+            continue
         axes = [[0.0, 77.0, 180.0, 301.5] if r is None else in_lattice(*r) for r in STD_RANGES[a]]
         lat = list(itertools.product(*axes))
         pts = [tuple(rnd.uniform(0, 360) if r is None else rnd.uniform(*r) for r in STD_RANGES[a]) for _ in range(nr)]
@@ -185,7 +203,7 @@ def run(ctx):
                   explanation="MC_ColourMath: 17 self-checks of the reference (derived sRGB matrix hits the white point and inverts, f(t) "
                               "continuous at the join, known exact points accepted, perturbed points rejected). MC_OkColour: the transcribed Okhsv / Okhsl / "
                               "HSLuv procedures mean what they are for on a hue grid (s = v = 1 is the gamut cusp, s = 1 the gamut surface, toe "
-                              "inverse, a 2 % perturbation fails). 52 directed edges x lattice, "
+                              "inverse, a 2 % perturbation fails). 66 directed edges x lattice, "
                               "threshold-straddling and random inputs x f32/f64 are judged by TLC with the relations of ColourMath.tla in "
                               "104-bit fixed point.",
                   trusted=["reference constants and formulas written in spec/ColourMath.tla with their citations",
